@@ -318,6 +318,16 @@ Theorem C19_exec_empi_is_model : forall (h : hdr) (eps : Qc) (nsv : rvec), sizes
 Proof. exact tomo_empi_spec. Qed.
 Print Assumptions C19_exec_empi_is_model.
 
+(* the materialised probability rows (op c19.prob_dists and the rows every other tomography op starts from) and the materialised
+   total covariance are, entry by entry, the model's calc_prob_dists / calc_covariance_mat_total *)
+Theorem C19_exec_prob_dists_is_model : forall (h : hdr) (eps : Qc), sizes_ok h = true ->
+  pds_eq Qc_OF (pd_rows h eps) (tomo_pds Qc_OF eps (h_nv h) (h_ms h) (h_A h) (h_b h) (h_v h)).
+Proof. exact pd_rows_eq. Qed.
+Print Assumptions C19_exec_prob_dists_is_model.
+Theorem C19_exec_cov_total_is_model : forall (h : hdr) (eps : Qc) (nsv : rvec), sizes_ok h = true ->
+  meq (h_nr h) (h_nr h) (sigma_of h eps nsv) (tomo_cov_total Qc_OF eps (h_nv h) (h_ms h) (h_A h) (h_b h) (h_v h) nsv).
+Proof. exact sigma_of_eq. Qed.
+Print Assumptions C19_exec_cov_total_is_model.
 Theorem C19_exec_fisher_is_model : forall (h : hdr) (eps8 : Qc) (w : rvec), sizes_ok h = true ->
   mres_mat_eq Qc_OF (fisher_total_of_raw Qc_OF eps8 (raw_frozen h) (h_A h) (h_ms h) w)
                     (tomo_fisher_total Qc_OF eps8 (h_nv h) (h_ms h) (h_A h) (h_b h) (h_v h) w).
